@@ -48,3 +48,4 @@ pub fn z_find(p: &[u8], t: &[u8]) -> Vec<usize> {
     }
     (m + 1..n).filter(|&i| z[i] >= m).map(|i| i - m - 1).collect()
 }
+pub mod scale;
